@@ -8,22 +8,24 @@ Tr == ndJsonDeserialize(IOEnv.TRACE)
 Chk(name, c) == IF c THEN TRUE ELSE (PrintT(<<"FAILED", name, l>>) /\ FALSE)
 Same(a, b) == ToString(a) = ToString(b)
 
-SeqMatch(want, got) == Len(want) = Len(got) /\ \A k \in 1..Len(want) : want[k] = "?" \/ Same(want[k], got[k])
+SeqMatch(want, got) == Len(want) <= Len(got) /\ \A k \in 1..Len(want) : Same(want[k], "?") \/ Same(want[k], got[k])
 
 TSkip ==      \* fixture calls and marks: must succeed
-    /\ (Tr[l].e \in {"Reset", "Header"} \/ "setup" \in DOMAIN Tr[l].a)
-    /\ (Tr[l].e \in {"Reset", "Header"} \/ Tr[l].rc = "NC_NOERR")
+    /\ IF Tr[l].e \in {"Reset", "Header"} THEN TRUE
+       ELSE "setup" \in DOMAIN Tr[l].a /\ Tr[l].rc = "NC_NOERR"
     /\ l' = l + 1
 
 TConv ==
     /\ Tr[l].e \notin {"Reset", "Header"} /\ "setup" \notin DOMAIN Tr[l].a
     /\ LET ev == Tr[l]  a == ev.a
            want == Delivered(a.srctext, a.dsttext, a.fmtno, a.cls, a.exp, a.fill) IN
-         /\ Chk("rc", ev.rc = Rc(a.srctext, a.dsttext, a.fmtno, a.cls))
+         /\ Chk("rc", a.what = "putatt" \/ ev.rc = Rc(a.srctext, a.dsttext, a.fmtno, a.cls))
          /\ Chk("others", a.srctext # a.dsttext \/ OthersUnaffected(a.fmtno, a.cls, a.exp, a.fill))
          /\ CASE a.what = "put"    -> Chk("stored", SeqMatch(want, ev.obs.disk.vars[a.v + 1].data))
               [] a.what = "get"    -> Chk("buffer", ev.rc = "NC_ECHAR" \/ SeqMatch(want, ev.out.buf)) /\ Chk("guard", ev.out.guard)
-              [] a.what = "putatt" -> Chk("stored", ev.rc = "NC_ECHAR" \/ SeqMatch(want, ev.obs.disk.gatts[1][4]))
+              [] a.what = "putatt_rc" -> TRUE
+              \* (checked at the following no-op step, once the header is on disk)
+              [] a.what = "putatt" -> Chk("stored", SeqMatch(want, ev.obs.disk.gatts[1][4]))
               [] a.what = "getatt" -> Chk("buffer", ev.rc = "NC_ECHAR" \/ SeqMatch(want, ev.out.vals))
     /\ l' = l + 1
 
